@@ -100,7 +100,9 @@ def run_c05(rep, tier, seed):
                 p = osyris.histogram2d(X, Y, L, S, resolution=n, xmin=float(s["lx"][0]), xmax=float(s["lx"][1]),
                                        ymin=float(s["ly"][0]), ymax=float(s["ly"][1]), plot=False)
                 q = (lambda v, u: float(v) * osyris.units(u)) if i % 10 == 0 else (lambda v, u: float(v))      # limits as plain numbers or as Quantities
-                p0 = osyris.histogram2d(X, Y, resolution=n, xmin=q(s["lx"][0], "m"), xmax=q(s["lx"][1], "m"), ymin=q(s["ly"][0], "s"), ymax=q(s["ly"][1], "s"), plot=False)
+                # the default layer is the number of points per bin whatever reduction the call names for value layers
+                opkw = {"operation": ["mean", "sum"][i % 2]} if i % 3 == 0 else {}
+                p0 = osyris.histogram2d(X, Y, resolution=n, xmin=q(s["lx"][0], "m"), xmax=q(s["lx"][1], "m"), ymin=q(s["ly"][0], "s"), ymax=q(s["ly"][1], "s"), plot=False, **opkw)
             except Exception as e:
                 rep.mismatch({"module": "HistMachine", "field": "histogram2d-raises"}, f"histogram2d raised {type(e).__name__}: {e} on x={s['xs']}", case={"scenario": r}, module="hist")
                 continue
